@@ -155,6 +155,10 @@ fn run<F: TopicSubscriptionFilter + Send + 'static>(filter: F, fm: FilterModel) 
     if choose(3) == 0 {
         cb.do_px().prune_peers(3);
     }
+    if choose(2) == 0 {
+        // opportunistic grafting on every 1st..3rd heartbeat instead of every 60th, so that this branch of the heartbeat runs
+        cb.opportunistic_graft_ticks(1 + choose(3) as u64).opportunistic_graft_peers(1 + choose(3));
+    }
     let config = cb.build().map_err(|e| violation!("harness/config", "{e:?}"))?;
     let mut beh: Beh<F> = gs::Behaviour::new_with_subscription_filter(gs::MessageAuthenticity::Signed(key.clone()), config.clone(), filter).map_err(|e| violation!("harness/behaviour", "{e}"))?;
     let graylist = -80.0;
